@@ -16,7 +16,7 @@ PROVED = ['[P] hensel_step_spec (Cohen 3.5.5; any p > 1 dividing q, a monic): c 
 NOT_PROVED = []
 RULE = ('lift_factorization on planted inputs: p in {2,3,5,7,13,101,2^61-1}, e in 1..12, 1..8 distinct monic irreducible factors mod p '
         '(total degree <= 10), c = lc * prod + p * (random), lc prime to p (also huge / negative), coefficients of c disguised by multiples '
-        'of p and negative, factor order shuffled; a second stream takes the factors from the implementation\'s own factorize_mod_p of a '
+        'of p and negative, factor order shuffled; exact factorisations over Z whose factors have zero p-adic digits below p^k (zero correction steps) with the mod-p factors given canonical, negative or shifted by multiples of p; a second stream takes the factors from the implementation\'s own factorize_mod_p of a '
         'random c that is squarefree mod p; single hensel_lift steps with q = p^k; coprime witness on coprime and non-coprime pairs; '
         'a separate stream outside the preconditions (duplicate factors, p | lc, wrong product). Non-trivial = at least 2 factors and e >= 2.')
 CLAIM = dict(
@@ -101,6 +101,29 @@ def cases(rng, tier):
         c, fs = planted(rng, p, th)
         out.append(Case('pm_lift_factorization', line('pm_lift_factorization', p, e, c, fs), oracle=o_lift(p, e, c, fs), always_oracle=True,
                         nontrivial=(len(fs) >= 2 and e >= 2), tag='lift-planted-%dfac%s' % (min(len(fs), 4), '+' if len(fs) >= 4 else '')))
+    # exact factorisations over Z with sparse p-adic digits: c = lc * prod F_i over Z with F_i = f_i + p^k g_i (k >= 2, or g_i = 0),
+    # so the lifting steps below p^k have a ZERO correction term (the fixed point is reached for a while and then left again);
+    # the mod-p factors are supplied canonical or as other representatives (negative / shifted by multiples of p, still monic)
+    for i in range(600 if th else 120):
+        p = PS[i % (len(PS) - 1)]
+        k = rng.choice([2, 2, 3, 4])
+        e = rng.choice([k, k + 1, k + 2, 2 * k + 1, 9])
+        fs = distinct_irreducibles(rng, p, [rng.choice([1, 1, 1, 2, 3]) for _ in range(rng.choice([2, 2, 3, 4]))])
+        if not fs: continue
+        zero_g = rng.random() < 0.35
+        Fs = [f if zero_g else zadd(f, zscal(p ** k, [rng.randrange(0, p) for _ in range(len(f) - 1)])) for f in fs]
+        if rng.random() < 0.5: Fs = [[c_ - (p ** (k + 1) if rng.random() < 0.3 else 0) for c_ in F[:-1]] + [1] for F in Fs]
+        lc = rng.choice([1, 1, 1, -1, rng.randrange(1, p), -5 if p != 5 else -3])
+        c = zscal(lc, zprod(Fs))
+        given = fs if rng.random() < 0.4 else [disguise(rng, f[:-1], p, 1) + [1] for f in fs]
+        if rng.random() < 0.3: given = [[(x_ % p) - (p if x_ % p else 0) for x_ in f[:-1]] + [1] for f in fs]
+        out.append(Case('pm_lift_factorization', line('pm_lift_factorization', p, e, c, given), oracle=o_lift(p, e, c, given), always_oracle=True,
+                        nontrivial=e >= 2, tag='lift-zero-digits-%s' % ('exact' if zero_g else 'k%d' % k)))
+    for p_, c_, fs_ in [(5, [1, 0, 1, 0, 1], [[1, 1, 1], [1, -1, 1]]), (7, [0, -1, 0, 1], [[0, 1], [1, 1], [-1, 1]]),
+                        (3, [99, 119, 21, 1], [[1, 1], [0, 1], [2, 1]]), (3, [99, 119, 21, 1], [[1, 1], [9, 1], [11, 1]])]:
+        for e in (2, 3, 4, 6):
+            out.append(Case('pm_lift_factorization', line('pm_lift_factorization', p_, e, c_, fs_), oracle=o_lift(p_, e, c_, fs_), always_oracle=True,
+                            nontrivial=True, tag='lift-zero-digits-fixed'))
     # factors from the implementation's own factorize_mod_p of a random c that is squarefree mod p
     pre = []
     for i in range(300 if th else 60):
